@@ -129,6 +129,12 @@ def run(ck: Checker):
     cc = ctor[0].ast.value
     inc_arg = kwarg(cc, 'incref')
     if inc_arg is None:
+        # handed over inside the kwds mapping: `kwds['incref'] = incref; func(token, serializer, **kwds)`
+        star = [dotted(k.value) for k in cc.keywords if k.arg is None]
+        for n in walk_shallow_func(f.node):
+            if isinstance(n, ast.Assign) and len(n.targets) == 1 and isinstance(n.targets[0], ast.Subscript) and dotted(n.targets[0].value) in star and isinstance(n.targets[0].slice, ast.Constant) and n.targets[0].slice.value == 'incref' and n.lineno < cc.lineno:
+                inc_arg = n.value
+    if inc_arg is None:
         pass  # constructor default is incref=True
     elif isinstance(inc_arg, ast.Constant):
         if inc_arg.value is not True:
